@@ -268,7 +268,7 @@ func Harness_C18_file_index() {
 }
 
 // Harness_C18_file_logbomb: a log block whose deflate stream inflates to far more than the size its header declares is refused without inflating it all (allocation stays proportional to the file and to the declared block size).
-// bounds: the base table with a log section, its log block replaced by: block header 'g' with declared size in {its true size, 6, 40, 1000, 0xFFFFFF}, followed by a genuine deflate stream of 4 MiB of zero bytes (about 4 KiB) or by the genuine stream of the original block; the file header's block size is the original one or 0xFFFFFF (so that one fetch covers the stream); every read entry point; allocation budget 1 MiB + 8 x (file size + declared size)
+// bounds: the base table with a log section, its log block replaced by: block header 'g' with declared size in {its true size, 6, 40, 1000, 0xFFFFFF}, followed by a genuine deflate stream of 4 MiB of zero bytes (about 4 KiB) or by the genuine stream of the original block; the file header's block size is the original one or 0xFFFFFF (so that one fetch covers the stream); every read entry point; allocation budget 1 MiB + 16 x (file size + declared size)
 // assumes: real zlib on both sides (the stream is concrete)
 // covers: opened
 func Harness_C18_file_logbomb() {
@@ -302,7 +302,7 @@ func Harness_C18_file_logbomb() {
 			file[base+5], file[base+6], file[base+7] = 0xff, 0xff, 0xff
 		}
 	}
-	VerifAllocBudget(1<<20 + 8*(len(file)+declared))
+	VerifAllocBudget(1<<20 + 16*(len(file)+declared))
 	readEverything(file)
 	VerifAllocEnd()
 }
